@@ -105,6 +105,19 @@ def check_strategy(pair, key, wit):
                          f"{name} database hands back {strat!r} for {key}; re-applied it gives {got}", wit)
         if in_eqv and not strat(classdb.get_class(key[0])).is_two_way():
             cx.violation(f"C14:one-way-strategy-in-equivalence-store:{name}", f"{strat!r} for {key}", wit)
+        if not in_eqv and len(key[1]) == 1 and strat(classdb.get_class(key[0])).is_two_way():
+            # a single-child rule that is two-way is kept in the equivalence store only: what the
+            # general store hands back for a single-child key must be the one-way rule recorded there
+            cx.violation(f"C14:two-way-strategy-from-general-store:{name}",
+                         f"{name} database hands back the two-way strategy {strat!r} for the single-child key "
+                         f"{key} of its general store (the rule recorded under it was one-way)", wit)
+        if in_eqv and in_gen and len(key[1]) == 1:
+            cx.count("diff.keys_in_both_stores_looked_up")
+            g = db.rule_to_strategy[key]
+            if g(classdb.get_class(key[0])).is_two_way():
+                cx.violation(f"C14:two-way-strategy-from-general-store:{name}",
+                             f"{name} database: key {key} is in both stores; the general store hands back the "
+                             f"two-way strategy {g!r}", wit)
 
 
 def compare(pair, ev=None):
